@@ -110,4 +110,13 @@ theorem number_frac (ds fs rest : Bytes) (hd : AllDigits ds) (hf : AllDigits fs)
   rw [scanDigits_digits fs rest 0 0 hf hr]
   simp
 
+theorem ind_d : lookup DMSC.dmsindicators 100 = ((0 : Nat) : Int) := by decide
+theorem ind_m : lookup DMSC.dmsindicators 39 = ((1 : Nat) : Int) := by decide
+theorem ind_s : lookup DMSC.dmsindicators 34 = ((2 : Nat) : Int) := by decide
+theorem ind_c : lookup DMSC.dmsindicators 58 = 3 := by decide
+
+theorem nd (c : Nat) (h : c = 100 ∨ c = 39 ∨ c = 34 ∨ c = 58) : ¬ IsDigit c ∧ c ≠ 46 := by
+  unfold IsDigit; omega
+
+
 end GeoVerif.DMSProofs
